@@ -1,5 +1,543 @@
-import Astria.Ledger.Model
-/- Theorems for area `ledger` (stub). -/
+import Astria.Ledger.Conservation
+/-
+  Theorems about transactions, packet handlers and block end (C01, C03, C18).
+-/
 namespace Astria.Ledger
+
+/-! ## C01: conservation at the level of actions and transactions -/
+
+/-- Amount of asset `a` an action mints (+) or burns (−): only an ICS20 withdrawal of an asset
+    that carries the sending channel's prefix (a bridged-in asset going home) burns. -/
+def mintBurn (a : String) : Action → Int
+  | .ics20 amount denom chan _ _ _ _ _ => if hasLeading denom chan ∧ denom = a then -(amount : Int) else 0
+  | _ => 0
+
+theorem deltas_nil (a : String) : deltas a [] = 0 := rfl
+
+theorem deltas_cons (a : String) (e : Effect) (fx : List Effect) :
+    deltas a (e :: fx) = delta a e + deltas a fx := by
+  simp [deltas]
+
+theorem deltas_append (a : String) (fx gx : List Effect) :
+    deltas a (fx ++ gx) = deltas a fx + deltas a gx := by
+  simp [deltas, List.sum_append]
+
+theorem feePlan_deltas (s : State) (k : Kind) (size : Nat) (fa signer : String) (pos : Nat)
+    (fx : List Effect) (a : String) (h : feePlan s k size fa signer pos = some fx) :
+    deltas a fx = 0 := by
+  unfold feePlan at h
+  split at h
+  · cases h
+  · split at h
+    · cases h
+    · split at h
+      · cases h
+      · injection h with h; subst h
+        simp only [deltas_cons, deltas_nil, delta]
+        split <;> omega
+
+theorem delta_pair (x y as : String) (n : Nat) (a : String) :
+    delta a (.debit x as n) + delta a (.credit y as n) = 0 := by
+  simp only [delta]; split <;> omega
+
+theorem actionEffects_deltas (s : State) (signer : String) (pos : Nat) (act : Action) (a : String) :
+    deltas a (actionEffects s signer pos act) = mintBurn a act := by
+  cases act with
+  | transfer to asset amount fa =>
+    have := delta_pair signer to asset amount a
+    simp only [actionEffects, deltas_cons, deltas_nil, mintBurn]; omega
+  | rollup len fa => simp [actionEffects, deltas_nil, mintBurn]
+  | lock to asset amount fa dl =>
+    have := delta_pair signer to asset amount a
+    simp only [actionEffects, deltas_cons, deltas_nil, mintBurn]
+    simp only [delta] at this ⊢; omega
+  | unlock to bridge amount fa id blk =>
+    have := delta_pair bridge to (bridgeAsset s bridge) amount a
+    simp only [actionEffects, deltas_cons, deltas_nil, mintBurn]
+    simp only [delta] at this ⊢; omega
+  | bridgeTransfer to bridge amount fa id blk dl =>
+    have := delta_pair bridge to (bridgeAsset s bridge) amount a
+    simp only [actionEffects, deltas_cons, deltas_nil, mintBurn]
+    simp only [delta] at this ⊢; omega
+  | initBridge r asset fa su w => simp [actionEffects, deltas_cons, deltas_nil, delta, mintBurn]
+  | bridgeSudo bridge ns nw fa dis =>
+    simp only [actionEffects, mintBurn, deltas_append]
+    cases ns <;> cases nw <;> by_cases hb : s.postBlackburn = true <;>
+      simp [hb, deltas_cons, deltas_nil, delta]
+  | sudoChange x => simp [actionEffects, deltas_cons, deltas_nil, delta, mintBurn]
+  | ibcSudoChange x => simp [actionEffects, deltas_cons, deltas_nil, delta, mintBurn]
+  | relayerAdd x => simp [actionEffects, deltas_cons, deltas_nil, delta, mintBurn]
+  | relayerDel x => simp [actionEffects, deltas_cons, deltas_nil, delta, mintBurn]
+  | feeChange k b m => simp [actionEffects, deltas_cons, deltas_nil, delta, mintBurn]
+  | feeAssetAdd x => simp [actionEffects, deltas_cons, deltas_nil, delta, mintBurn]
+  | feeAssetDel x => simp [actionEffects, deltas_cons, deltas_nil, delta, mintBurn]
+  | valUpdate k p => simp [actionEffects, deltas_cons, deltas_nil, delta, mintBurn]
+  | ics20 amount denom chan fa bridge id blk ret =>
+    simp only [actionEffects, mintBurn, deltas_append]
+    have h1 : deltas a (wdEffects bridge id blk) = 0 := by
+      cases bridge <;> simp [wdEffects, deltas_cons, deltas_nil, delta]
+    rw [h1]
+    cases hh : hasLeading denom chan <;> by_cases ha : denom = a <;>
+      simp [hh, ha, deltas_cons, deltas_nil, delta] <;> omega
+
+/-- One action (fee payment + execution) changes the total of every asset by exactly what the
+    action mints or burns; for every action other than an ICS20 withdrawal of a bridged-in
+    asset that is zero. -/
+theorem execAction_total (s s' : State) (signer : String) (pos : Nat) (act : Action) (a : String)
+    (h : execAction s signer pos act = some s') :
+    (total s' a : Int) = total s a + mintBurn a act := by
+  unfold execAction at h
+  -- fee effects
+  cases hf : feeEffects s signer pos act with
+  | none => simp [hf] at h
+  | some fx =>
+    simp only [hf] at h
+    have hfx : deltas a fx = 0 := by
+      unfold feeEffects at hf
+      cases hi : feeInfo act with
+      | none => simp [hi] at hf; subst hf; rfl
+      | some t =>
+        obtain ⟨k, size, fa⟩ := t
+        simp only [hi] at hf
+        exact feePlan_deltas s k size fa signer pos fx a hf
+    cases h1 : applyEffects s fx with
+    | none => simp [h1] at h
+    | some s1 =>
+      simp only [h1] at h
+      split at h
+      · cases h
+      · have t1 := applyEffects_total fx s s1 a h1
+        have t2 := applyEffects_total _ s1 s' a h
+        rw [actionEffects_deltas] at t2
+        omega
+
+theorem execActions_total (acts : List Action) (s s' : State) (signer : String) (pos : Nat)
+    (a : String) (h : execActions s signer pos acts = some s') :
+    (total s' a : Int) = total s a + (acts.map (mintBurn a)).sum := by
+  induction acts generalizing s pos with
+  | nil => simp [execActions] at h; subst h; simp
+  | cons act rest ih =>
+    simp only [execActions] at h
+    cases h1 : execAction s signer pos act with
+    | none => simp [h1] at h
+    | some s1 =>
+      simp only [h1] at h
+      have t1 := execAction_total s s1 signer pos act a h1
+      have t2 := ih s1 (pos + 1) h
+      simp only [List.map_cons, List.sum_cons]
+      omega
+
+/-- C01 for a transaction: balances + escrow + block fees of every asset change by exactly the
+    amounts its ICS20 withdrawals burn — for all states, signers, nonces and action bundles. -/
+theorem execTx_total (s s' : State) (tx : Tx) (a : String) (h : execTx s tx = .ok s') :
+    (total s' a : Int) = total s a + (tx.actions.map (mintBurn a)).sum := by
+  unfold execTx at h
+  simp only at h
+  split at h
+  · cases h
+  · split at h
+    · cases h
+    · cases h1 : execActions { s with nonce := setN s.nonce tx.signer (getN s.nonce tx.signer + 1) }
+          tx.signer 0 tx.actions with
+      | none => simp [h1] at h
+      | some s1 =>
+        simp only [h1] at h
+        injection h with h; subst h
+        have := execActions_total tx.actions _ s1 tx.signer 0 a h1
+        simpa [total] using this
+
+/-! ## C01: fees are exact, debited from the signer only -/
+
+/-- The fee plan of an action: exactly `base + multiplier * size` of the schedule in force is
+    added to the block fees and debited from the transaction signer — from nobody else — and
+    the fee asset is an allowed one. -/
+theorem feePlan_exact (s : State) (k : Kind) (size : Nat) (fa signer : String) (pos : Nat)
+    (fx : List Effect) (h : feePlan s k size fa signer pos = some fx) :
+    ∃ cfg, lookup s.fees k = some cfg ∧ fa ∈ s.feeAssets ∧ cfg.base + size * cfg.mult ≤ U128_MAX ∧
+      fx = [.blockFee fa (cfg.base + size * cfg.mult) pos, .debit signer fa (cfg.base + size * cfg.mult)] := by
+  unfold feePlan at h
+  split at h
+  · cases h
+  · rename_i cfg hc
+    split at h
+    · cases h
+    · rename_i hfa
+      cases hfee : feeAmount cfg size with
+      | none => simp [hfee] at h
+      | some fee =>
+        simp only [hfee] at h
+        injection h with h
+        unfold feeAmount at hfee
+        split at hfee
+        · rename_i hle
+          injection hfee with hfee
+          subst hfee
+          exact ⟨cfg, hc, by simpa using hfa, hle, h.symm⟩
+        · cases hfee
+
+/-- The pinned `fee` charged `u128::MAX` where `base + multiplier * size` exceeds it
+    (fixed by `fix:` commit e775163). -/
+theorem feeAmountOriginal_counterexample :
+    feeAmountOriginal ⟨U128_MAX, 1⟩ 1 = U128_MAX ∧ U128_MAX + 1 * 1 ≠ U128_MAX := by decide
+
+/-! ## C01: block end routes the block's fees to the fee recipient -/
+
+theorem payFees_spec (fees : List (String × Nat)) (s s' : State) (h : payFees s fees = some s') :
+    s'.sudo = s.sudo ∧ s'.esc = s.esc ∧ s'.blockFees = s.blockFees ∧ s'.deposits = s.deposits ∧
+    s'.valUpdates = s.valUpdates ∧ s'.vals = s.vals ∧ s'.valCount = s.valCount ∧ s'.nonce = s.nonce ∧
+    (∀ a, getN s'.bal (s.sudo, a) = getN s.bal (s.sudo, a) + getN fees a) ∧
+    (∀ a, totalA s'.bal a = totalA s.bal a + getN fees a) := by
+  induction fees generalizing s with
+  | nil => simp [payFees] at h; subst h; simp [getN]
+  | cons e rest ih =>
+    obtain ⟨fa, n⟩ := e
+    simp only [payFees] at h
+    cases h1 : applyEffect s (.credit s.sudo fa n) with
+    | none => simp [h1] at h
+    | some s1 =>
+      simp only [h1] at h
+      simp only [applyEffect] at h1
+      split at h1
+      · injection h1 with h1
+        have hs1 : s1.sudo = s.sudo := by subst h1; rfl
+        obtain ⟨i1, i2, i3, i4, i5, i6, i7, i8, i9, i10⟩ := ih s1 h
+        subst h1
+        refine ⟨by simpa using i1, by simpa using i2, by simpa using i3, by simpa using i4,
+          by simpa using i5, by simpa using i6, by simpa using i7, by simpa using i8, ?_, ?_⟩
+        · intro a
+          have := i9 a
+          simp only at this
+          rw [this]
+          simp only [getN]
+          by_cases ha : fa = a
+          · subst ha; rw [getN_setN_same]; simp; omega
+          · have : (s.sudo, a) ≠ (s.sudo, fa) := by
+              intro hh; injection hh with _ h2; exact ha h2.symm
+            rw [getN_setN_other _ _ _ _ this]; simp [ha]
+        · intro a
+          have := i10 a
+          simp only at this
+          rw [this]
+          simp only [getN]
+          by_cases ha : fa = a
+          · subst ha
+            have := totalA_setN_same s.bal s.sudo fa (getN s.bal (s.sudo, fa) + n)
+            simp; omega
+          · have := totalA_setN_other s.bal s.sudo fa a (getN s.bal (s.sudo, fa) + n) (fun h => ha h.symm)
+            simp [ha]; omega
+      · cases h1
+
+/-- C01 at block end: when `end_block` succeeds, every asset's accumulated block fees are
+    credited to the fee recipient (the sudo address), the per-block accumulators are cleared,
+    and the total of every asset is unchanged. -/
+theorem authorityEndBlock_fields (s : State) :
+    (authorityEndBlock s).bal = s.bal ∧ (authorityEndBlock s).esc = s.esc ∧
+    (authorityEndBlock s).blockFees = s.blockFees ∧ (authorityEndBlock s).sudo = s.sudo ∧
+    (authorityEndBlock s).nonce = s.nonce := by
+  unfold authorityEndBlock; split <;> simp
+
+theorem endBlock_routes (s s' : State) (ups : List (String × Nat)) (h : endBlock s = (true, ups, s')) :
+    (∀ a, getN s'.bal (s.sudo, a) = getN s.bal (s.sudo, a) + getN s.blockFees a) ∧
+    s'.blockFees = [] ∧ s'.deposits = [] ∧ (∀ a, total s' a = total s a) := by
+  unfold endBlock at h
+  simp only at h
+  obtain ⟨f1, f2, f3, f4, _⟩ := authorityEndBlock_fields s
+  split at h
+  · rename_i s3 hp
+    injection h with _ h
+    injection h with _ h
+    subst h
+    obtain ⟨_, i2, _, _, _, _, _, _, i9, i10⟩ := payFees_spec _ _ s3 hp
+    simp only [f1, f2, f3, f4] at i2 i9 i10
+    refine ⟨fun a => i9 a, rfl, rfl, ?_⟩
+    intro a
+    have := i10 a
+    simp only [total, getN, i2]
+    omega
+  · injection h with h; cases h
+
+/-! ## C03: nonces -/
+
+theorem applyEffect_nonce (s s' : State) (e : Effect) (h : applyEffect s e = some s') :
+    s'.nonce = s.nonce := by
+  cases e <;> simp only [applyEffect] at h
+  all_goals first
+    | (injection h with h; subst h; first | rfl | (unfold updBridge; split <;> rfl) | (split <;> rfl))
+    | (split at h
+       · injection h with h; subst h; rfl
+       · cases h)
+    | (split at h
+       · injection h with h; subst h; rfl
+       · split at h
+         · injection h with h; subst h; rfl
+         · split at h <;> (injection h with h; subst h; rfl))
+
+theorem applyEffects_nonce (fx : List Effect) (s s' : State) (h : applyEffects s fx = some s') :
+    s'.nonce = s.nonce := by
+  induction fx generalizing s with
+  | nil => simp [applyEffects] at h; subst h; rfl
+  | cons e rest ih =>
+    simp only [applyEffects] at h
+    cases he : applyEffect s e with
+    | none => simp [he] at h
+    | some s1 =>
+      simp only [he] at h
+      rw [ih s1 h, applyEffect_nonce s s1 e he]
+
+theorem execAction_nonce (s s' : State) (signer : String) (pos : Nat) (act : Action)
+    (h : execAction s signer pos act = some s') : s'.nonce = s.nonce := by
+  unfold execAction at h
+  split at h
+  · cases h
+  · rename_i fx _
+    split at h
+    · cases h
+    · rename_i s1 h1
+      split at h
+      · cases h
+      · rw [applyEffects_nonce _ s1 s' h, applyEffects_nonce fx s s1 h1]
+
+theorem execActions_nonce (acts : List Action) (s s' : State) (signer : String) (pos : Nat)
+    (h : execActions s signer pos acts = some s') : s'.nonce = s.nonce := by
+  induction acts generalizing s pos with
+  | nil => simp [execActions] at h; subst h; rfl
+  | cons act rest ih =>
+    simp only [execActions] at h
+    cases h1 : execAction s signer pos act with
+    | none => simp [h1] at h
+    | some s1 =>
+      simp only [h1] at h
+      rw [ih s1 (pos + 1) h, execAction_nonce s s1 signer pos act h1]
+
+/-- C03: a transaction takes effect only at `nonce = account nonce`, raises exactly that
+    account's nonce by exactly one and leaves every other nonce alone. -/
+theorem execTx_nonce_gate (s s' : State) (tx : Tx) (h : execTx s tx = .ok s') :
+    getN s.nonce tx.signer = tx.nonce ∧ getN s'.nonce tx.signer = tx.nonce + 1 ∧
+    ∀ x, x ≠ tx.signer → getN s'.nonce x = getN s.nonce x := by
+  unfold execTx at h
+  simp only at h
+  split at h
+  · cases h
+  · rename_i hn
+    split at h
+    · cases h
+    · split at h
+      · cases h
+      · rename_i s1 h1
+        injection h with h; subst h
+        have hnonce := execActions_nonce tx.actions _ s1 tx.signer 0 h1
+        have hn' : getN s.nonce tx.signer = tx.nonce := by simpa using hn
+        refine ⟨hn', ?_, ?_⟩
+        · rw [hnonce]; simp only; rw [getN_setN_same, hn']
+        · intro x hx
+          rw [hnonce]; simp only; rw [getN_setN_other _ _ _ _ hx]
+
+/-- The state after attempting a transaction: a failed transaction leaves the state it found. -/
+def stepTx (s : State) (tx : Tx) : State :=
+  match execTx s tx with
+  | .ok s' => s'
+  | .error _ => s
+
+/-- C03 (atomicity): a transaction that fails at any action leaves the state exactly as it was,
+    including block fees, cached deposits, recorded events and validator updates. -/
+theorem stepTx_error (s : State) (tx : Tx) (e : Err) (h : execTx s tx = .error e) : stepTx s tx = s := by
+  simp [stepTx, h]
+
+theorem stepTx_nonce_mono (s : State) (tx : Tx) (x : String) : getN s.nonce x ≤ getN (stepTx s tx).nonce x := by
+  unfold stepTx
+  cases h : execTx s tx with
+  | error e => simp
+  | ok s' =>
+    simp only
+    obtain ⟨h1, h2, h3⟩ := execTx_nonce_gate s s' tx h
+    by_cases hx : x = tx.signer
+    · subst hx; omega
+    · rw [h3 x hx]; exact Nat.le_refl _
+
+/-- Number of times `tx` executes successfully along a history of transactions. -/
+def successes (tx : Tx) : State → List Tx → Nat
+  | _, [] => 0
+  | s, t :: rest =>
+    (if t = tx ∧ (execTx s t).toBool then 1 else 0) + successes tx (stepTx s t) rest
+
+theorem successes_zero_of_nonce_gt (tx : Tx) (hist : List Tx) (s : State)
+    (h : getN s.nonce tx.signer > tx.nonce) : successes tx s hist = 0 := by
+  induction hist generalizing s with
+  | nil => rfl
+  | cons t rest ih =>
+    simp only [successes]
+    have hmono := stepTx_nonce_mono s t tx.signer
+    rw [ih (stepTx s t) (by omega)]
+    by_cases ht : t = tx
+    · subst ht
+      cases he : execTx s t with
+      | error e => simp [Except.toBool]
+      | ok s' =>
+        have := (execTx_nonce_gate s s' t he).1
+        omega
+    · simp [ht]
+
+/-- C03 (no replay): along any history of transactions from any state, a given signed
+    transaction takes effect at most once. -/
+theorem no_replay (tx : Tx) (hist : List Tx) (s : State) : successes tx s hist ≤ 1 := by
+  induction hist generalizing s with
+  | nil => simp [successes]
+  | cons t rest ih =>
+    simp only [successes]
+    by_cases ht : t = tx ∧ (execTx s t).toBool = true
+    · obtain ⟨h1, h2⟩ := ht
+      subst h1
+      cases he : execTx s t with
+      | error e => simp [he, Except.toBool] at h2
+      | ok s' =>
+        have hg := execTx_nonce_gate s s' t he
+        have : stepTx s t = s' := by simp [stepTx, he]
+        rw [this, successes_zero_of_nonce_gt t rest s' (by omega)]
+        simp [he, Except.toBool]
+    · have := ih (stepTx s t)
+      simp only [ht, if_false]
+      omega
+
+/-! ## C18: IBC packets -/
+
+/-- A received packet that is acknowledged with an error changes nothing at all. -/
+theorem recvPacket_all_or_nothing (s : State) (p : RecvPacket) (h : (recvPacket s p).1 = false) :
+    (recvPacket s p).2 = s := by
+  unfold recvPacket at h ⊢
+  split
+  · rfl
+  · rename_i fx hp
+    simp only [hp] at h
+    split
+    · rfl
+    · rename_i s' ha
+      simp [ha] at h
+
+/-- The pinned handler violated this (fixed by `fix:` commit 5215c1f): it ran the effect list of
+    `receive_tokens` on the transaction's own delta, so the effects before the failing one
+    survived the error acknowledgement.  For a bridge recipient the list starts with the
+    deposit; with nothing in escrow the release fails and the deposit stays. -/
+theorem recvPacketOriginal_counterexample :
+    let s : State := { postAspen := true, postBlackburn := true, sudo := "s", ibcSudo := "i" }
+    let d : Deposit := ⟨"b0", 1, "nria", 500, 11, 0⟩
+    let r := applyEffectsPartial s [.deposit d, .escSub 0 "nria" 500, .credit "b0" "nria" 500]
+    r.1 = false ∧ r.2.deposits.length = 1 := by
+  decide
+
+theorem recvDeposit_deltas (s : State) (rcpt asset : String) (p : RecvPacket) (fx : List Effect)
+    (a : String) (h : recvDeposit s rcpt asset p = some fx) : deltas a fx = 0 := by
+  unfold recvDeposit at h
+  split at h
+  · injection h with h; subst h; rfl
+  · split at h
+    · cases h
+    · split at h
+      · cases h
+      · split at h
+        · cases h
+        · injection h with h; subst h; simp [deltas_cons, deltas_nil, delta]
+
+theorem recvMoves_deltas (p : RecvPacket) (rcpt asset a : String) :
+    deltas a (recvMoves p rcpt asset) =
+      if hasLeading p.denom p.srcChan = false ∧ asset = a then (p.amount : Int) else 0 := by
+  unfold recvMoves
+  cases hl : hasLeading p.denom p.srcChan <;> by_cases ha : asset = a <;>
+    simp [hl, ha, deltas_append, deltas_cons, deltas_nil, delta] <;> omega
+
+/-- What a received packet mints: if acknowledged successfully, the full amount of a foreign
+    asset (it gets the receiving channel's prefix), nothing for an asset coming home (it is
+    released from escrow); if acknowledged with an error, nothing. -/
+theorem recvPacket_total (s s' : State) (p : RecvPacket) (ok : Bool) (a : String)
+    (h : recvPacket s p = (ok, s')) :
+    (total s' a : Int) = total s a +
+      (if ok = true ∧ hasLeading p.denom p.srcChan = false ∧ recvAsset p = a
+       then (p.amount : Int) else 0) := by
+  unfold recvPacket at h
+  cases hp : recvPlan s p with
+  | none => simp [hp] at h; obtain ⟨h1, h2⟩ := h; subst h1 h2; simp
+  | some fx =>
+    simp only [hp] at h
+    cases ha : applyEffects s fx with
+    | none => simp [ha] at h; obtain ⟨h1, h2⟩ := h; subst h1 h2; simp
+    | some s1 =>
+      simp only [ha] at h
+      injection h with h1 h2
+      subst h1 h2
+      have ht := applyEffects_total fx s s1 a ha
+      rw [ht]
+      congr 1
+      unfold recvPlan at hp
+      cases hr : p.receiver with
+      | none => simp [hr] at hp
+      | some rcpt =>
+        simp only [hr] at hp
+        split at hp
+        · cases hp
+        · cases hd : recvDeposit s rcpt (recvAsset p) p with
+          | none => simp [hd] at hp
+          | some depFx =>
+            simp only [hd] at hp
+            injection hp with hp; subst hp
+            rw [deltas_append, recvDeposit_deltas s rcpt _ p depFx a hd, recvMoves_deltas]
+            simp
+
+theorem refundMoves_deltas (p : RefundPacket) (rcpt a : String) :
+    deltas a (refundMoves p rcpt) =
+      if hasLeading p.denom p.srcChan = true ∧ p.denom = a then (p.amount : Int) else 0 := by
+  unfold refundMoves
+  cases hl : hasLeading p.denom p.srcChan <;> by_cases ha : p.denom = a <;>
+    simp [hl, ha, deltas_append, deltas_cons, deltas_nil, delta] <;> omega
+
+/-- What a refund (timeout / failed acknowledgement) mints: a bridged-in asset that was burnt
+    when it was sent is minted back; a sequencer-origin asset is released from escrow. -/
+theorem refundPacket_total (s s' : State) (p : RefundPacket) (a : String)
+    (h : refundPacket s p = .ok s') :
+    (total s' a : Int) = total s a +
+      (if hasLeading p.denom p.srcChan = true ∧ p.denom = a then (p.amount : Int) else 0) := by
+  unfold refundPacket at h
+  cases hp : refundPlan s p with
+  | none => simp [hp] at h
+  | some fx =>
+    simp only [hp] at h
+    cases ha : applyEffects s fx with
+    | none => simp [ha] at h
+    | some s1 =>
+      simp only [ha] at h
+      injection h with h; subst h
+      rw [applyEffects_total fx s s1 a ha]
+      congr 1
+      unfold refundPlan at hp
+      cases hr : p.sender with
+      | none => simp [hr] at hp
+      | some rcpt =>
+        simp only [hr] at hp
+        cases hd : refundDeposit s rcpt p with
+        | none => simp [hd] at hp
+        | some depFx =>
+          simp only [hd] at hp
+          injection hp with hp; subst hp
+          have hd0 : deltas a depFx = 0 := by
+            unfold refundDeposit at hd
+            split at hd
+            · split at hd
+              · cases hd
+              · split at hd
+                · cases hd
+                · injection hd with hd; subst hd; simp [deltas_cons, deltas_nil, delta]
+            · injection hd with hd; subst hd; rfl
+          rw [deltas_append, hd0, refundMoves_deltas]
+          simp
+
+/-- An incoming transfer or refund can never release more than is escrowed: a successful
+    `escSub` needs the amount to be present. -/
+theorem escSub_bounded (s s' : State) (c : Nat) (a : String) (n : Nat)
+    (h : applyEffect s (.escSub c a n) = some s') :
+    n ≤ getN s.esc (c, a) ∧ getN s'.esc (c, a) = getN s.esc (c, a) - n := by
+  simp only [applyEffect] at h
+  split at h
+  · rename_i hle
+    injection h with h; subst h
+    exact ⟨hle, by simp [getN_setN_same]⟩
+  · cases h
 
 end Astria.Ledger
